@@ -294,6 +294,11 @@ class Model():
             raise LookupError(f'Asset "{asset.name}"({asset.id}) is not '
                 'part of the association provided.')
 
+        # The asset is no longer part of the association
+        assocs = list(asset.associations)
+        assocs.remove(association)
+        asset.associations = assocs
+
     def _validate_association(self, association: SchemaGeneratedClass) -> None:
         """Raise error if association is invalid or already part of the Model.
 
